@@ -79,6 +79,22 @@ PLANS.update({
         "thorough": [job("c14", args={"sessions": 6000, "time": 480}, timeout=3600)],
         "floor": 20000,
     },
+    "C08": {
+        "quick": [job("c08")],
+        "thorough": [job("c08", timeout=3600), job("c08", variant="noalloc", timeout=3600, args={"images": 600})],
+        "floor": 5000,
+    },
+    "C13": {
+        "quick": [job("c13", args={"sessions": 400, "time": 40})],
+        "thorough": [job("c13", args={"sessions": 6000, "time": 400}, timeout=3600)],
+        "floor": 5000,
+    },
+    "C19": {
+        "quick": [job("c19", trace=True), job("c19", trace=True, variant="noalloc"), job("c19", trace=True, variant="nouni")],
+        "thorough": [job("c19", trace=True), job("c19", trace=True, variant="noalloc"), job("c19", trace=True, variant="nouni")],
+        "floor": 5000,
+        "post": "c19",
+    },
     "C15": {
         "quick": [job("c15"), job("c15", variant="nouni")],
         "thorough": [job("c15"), job("c15", variant="nouni"), job("c15", profile="relwrap")],
@@ -148,6 +164,11 @@ LEVEL_TEXT.update({
     "C09": "Fault enumeration: for 44 representative operations on four volume geometries (FAT12/16/32) every device-call index k of the operation is failed once (exhaustive single-fault enumeration; thorough adds per-kind enumeration), the result of the public call is compared with the injected error code, destructor-issued calls are exempted through the drop-depth hook, a device-call budget of 20x the fault-free count detects non-termination, destructors after the failed call run under the same budget.",
     "C14": "Fault enumeration over crash points: random histories are journaled (every device write with payload, every device flush); for every call the image is rebuilt after each of its device writes (strided above 96 writes per call) and every file that was durable before the call and is not touched by it must read back exactly through a fresh mount; at every flush/drop of a file handle no device write may be younger than the last device flush.",
 })
+LEVEL_TEXT.update({
+    "C08": "Exploration: a randomized, spec-driven builder (FAT width, sector/cluster size, 1-3 FATs, mirroring off with any active copy, stale inactive copies, large reserved areas, FS-info/backup placement, fragmented and backwards chains, every EOC marker, FAT32 high nibbles, bad clusters, deleted and orphaned slots, SFN-only entries with NT flags / 0x05 / OEM bytes, labels anywhere, all attribute bits, exactly-full directories, random timestamps) produces volumes with known ground truth; every volume is read completely through the crate and compared, then hit with a few mutations under the session monitors (fsck with residue tolerance, write classifier, FAT copy rules, raw-entry preservation); cross-validated against the independent decoder and two Linux-made images.",
+    "C13": "Exploration: random read-only sessions (open/list/seek/read/extents/labels/flags/statistics, drop/unmount/abandon) on builder-made and library-populated volumes of every width, clean or dirty at mount, with known/unknown FS-info counts, on a normal and on a write-refusing device; every device write is an alarm unless it is the documented FS-info exception.",
+    "C19": "Exploration (differential): the same driver compiled with three feature sets replays identical seeded histories (every long-name length 1..255, random sessions, foreign images); final image SHA-256 and observation traces are compared pairwise offline (full vs no-alloc on everything; full vs no-unicode on ASCII and exact-case sets).",
+})
 LEVEL_NOTE = {
     "*": "Trusted base: the harness (device, independent decoder fatck, reference model) and rustc's dynamic checks (overflow checks, debug assertions, bounds checks are ON in the relcheck profile). Only executed histories are covered; see evidence coverage for what was observed.",
 }
@@ -188,6 +209,16 @@ TECHNIQUE.update({
 RULES.update({
     "C09": "evaluations = (operation, geometry, k) runs in which the injected fault fired; distinct = distinct (geometry, scenario, k, kind mask) tuples; all k in 1..N are executed for every scenario",
     "C14": "evaluations = crash images rebuilt and remounted; distinct = distinct (call kind, write index within the call, protected file length) tuples",
+})
+TECHNIQUE.update({
+    "C08": "runtime monitoring: ground-truth comparison against a spec-driven image builder + session monitors on mutations of foreign images",
+    "C13": "runtime monitoring: device write counter / write log over read-only sessions",
+    "C19": "runtime monitoring: offline comparison of recorded observation traces and image hashes of one driver built three ways",
+})
+RULES.update({
+    "C08": "evaluations = images built + entries compared + API calls of the mutation sessions; distinct = distinct (geometry class, status byte, FS-info mode, encoding switches, entry count) tuples plus session tuples",
+    "C13": "evaluations = API calls of read-only sessions; distinct = distinct (volume origin/width/device kind/trust class, op kind, result kind, tree state) tuples",
+    "C19": "evaluations = API calls replayed per build; distinct = distinct cases (kind, id) whose traces and image hashes were compared",
 })
 DESIGN_REF = {}
 NOT_APPLICABLE = []
